@@ -88,6 +88,7 @@ CPUCFG = {
     "none": ("cpusupport-none.h", []),
     "sse2": ("cpusupport-sse2.h", ["-msse2"]),
     "sse42": ("cpusupport-sse42.h", ["-msse4.2"]),
+    "sse42w32": ("cpusupport-sse42w32.h", ["-msse4.2"]),     # SSE4.2 with 32-bit words (the configuration of 32-bit x86)
     "aesni": ("cpusupport-aesni.h", ["-maes"]),
     "shani": ("cpusupport-shani.h", ["-msse2", "-mssse3", "-msha"]),
 }
